@@ -5,6 +5,7 @@ import Goyang.Model.TypesLite
 import Goyang.Lemmas.IncludeAugK
 import Goyang.Lemmas.IncludeAugOrder
 import Goyang.Lemmas.IncludeAugView
+import Goyang.Lemmas.IncludeAugCompose
 /-
 C13, third sentence — "An included submodule contributes its data nodes, typedefs, groupings and
 identities to the including module exactly as if they were written there."
@@ -1166,5 +1167,110 @@ example : dumpOf { oA with forest := { trees := [(0, tA.addErr (Err.bare "other"
       cases hx
       exact ⟨rfl, rfl⟩
 end ExE
+
+/-! ### (E) + (F) applied: the split run in the module order of the unsplit set, on the dump -/
+
+/-- **fixChoice_path_view** (piece F).  `FixChoice` respects the path view: error-free trees with the same
+data at every step path (children possibly in another order) still have the same data at every step path
+after `fixChoice` (the shorthand members of every choice wrapped into implied cases).  Error-freeness is
+needed: `FixChoice` leaves a choice with a recorded error alone, and the path view does not see errors. -/
+theorem fixChoice_path_view {t' t : Entry} (h : Lemmas.IncludeAugDump.PEq t' t) (h' : Spec.Tree.NoErrors t')
+    (h0 : Spec.Tree.NoErrors t) : Lemmas.IncludeAugDump.PEq (fixChoice t') (fixChoice t) :=
+  Lemmas.IncludeAugFix.fixChoice_peq h h' h0
+
+/-- **include_dump_in_unsplit_order.**  `include_augment_loop_order` carried from the flat view to the
+canonical dump, through `FixChoice` (pieces E and F): for a split set without deviation statements whose
+augment loop leaves nothing pending and whose `Process` is error free, the dump of every module `m` of the
+result is the dump of: the augment loop run in the module order of the UNSPLIT set (`loopU`), then
+`FixChoice` on every tree.  So for the dump, too, the additional submodule trees' effect on the visiting
+order is immaterial.  Not yet derived, hence hypotheses on the two trees of `m` (decidable resp. discharged
+by `sameIO_of_noRpc` on sets without rpc / action nodes): `IOShape` (an rpc node has no `Dir` child, any
+other node no input / output) and `SameIO` (the two runs created the same rpc inputs / outputs). -/
+theorem include_dump_in_unsplit_order (s : Split) (R R' : Registry) (opts : Opts) (plug plug' : Plug)
+    (h : IsSplitOf s R R' plug plug') (hL : Lemmas.Fuel.LoadedShape R') (hpos : Lemmas.Bridge.AugPosDistinct R')
+    (hplain : Lemmas.Bridge.AugArgsPlain R') (h1 : stage1Errs R' plug' = []) (h2 : forestErrs (forest0 R' opts plug') = [])
+    (hdev : ∀ x ∈ R'.mods, x.stmt.all "deviation" = []) (hn : Lemmas.IncludeAugOrder.NoLeftover R' opts plug')
+    (hclean : (processAll R' opts plug').errors = []) (m : Mod) {ts tu : Entry}
+    (hts : (afterLoop R' opts plug').2.forest.tree? m.seq = some ts)
+    (htu : (Lemmas.IncludeAugCompose.loopU R R' opts plug').forest.tree? m.seq = some tu)
+    (hss : Lemmas.IncludeAugView.IOShape ts) (hsu : Lemmas.IncludeAugView.IOShape tu)
+    (hio : Lemmas.IncludeAugView.SameIO ts tu) :
+    dumpOf (processAll R' opts plug') m =
+      dumpOf { errors := [], forest := Lemmas.AugmentReport.fixAll (Lemmas.IncludeAugCompose.loopU R R' opts plug').forest,
+               reg := R' } m :=
+  Lemmas.IncludeAugCompose.split_dump_in_unsplit_order opts plug plug' h hL hpos hplain h1 h2 hdev hn hclean m hts htu hss hsu hio
+
+/-! non-vacuity of `include_dump_in_unsplit_order`: `Ex4` (the loop of the split set visits `mb` before `ma`
+and needs a second pass; in the order of the unsplit set one pass applies both) -/
+namespace Ex4E
+open Ex (plug)
+open Ex4
+open Goyang.Lemmas.Bridge (PlainAbsArg AugArgsPlain)
+
+theorem plainA : PlainAbsArg "/t:keep" := by
+  have hs : "/t:keep".splitOn "/" = ["", "t:keep"] := by
+    rw [Lemmas.Find.slash_eq, Lemmas.Find.splitOn_char]; decide
+  unfold PlainAbsArg
+  rw [hs]
+  exact ⟨rfl, by decide⟩
+
+theorem plainB : PlainAbsArg "/t:keep/ma:y" := by
+  have hs : "/t:keep/ma:y".splitOn "/" = ["", "t:keep", "ma:y"] := by
+    rw [Lemmas.Find.slash_eq, Lemmas.Find.splitOn_char]; decide
+  unfold PlainAbsArg
+  rw [hs]
+  exact ⟨rfl, by decide⟩
+
+theorem argsPlain : AugArgsPlain R' := by
+  intro m hm s hs
+  have hall : ∀ m ∈ R'.mods, ∀ s ∈ m.stmt.all "augment", s.arg = "/t:keep" ∨ s.arg = "/t:keep/ma:y" := by decide +kernel
+  rcases hall m hm s hs with e | e <;> rw [e]
+  · exact plainA
+  · exact plainB
+
+open Goyang.Lemmas.IncludeAugK Goyang.Lemmas.IncludeAugOrder in
+theorem noLeftover' : NoLeftover R' {} plug := by
+  unfold NoLeftover; rw [afterLoop_eqK]; decide +kernel
+
+theorem stage1 : stage1Errs R' plug = [] := by decide +kernel
+theorem conv0 : forestErrs (forest0 R' {} plug) = [] := by decide +kernel
+
+open Goyang.Lemmas.IncludeAugK Goyang.Lemmas.IncludeAugView in
+theorem ts_ok : ∃ ts, (afterLoop R' {} plug).2.forest.tree? 2 = some ts ∧ IOShape ts ∧ NoRpc ts := by
+  rw [afterLoop_eqK]
+  have h : ((afterLoopK R' {} plug).2.forest.tree? 2).any (fun t => decide (IOShape t) && decide (NoRpc t)) = true := by
+    decide +kernel
+  cases hh : (afterLoopK R' {} plug).2.forest.tree? 2 with
+  | none => rw [hh] at h; cases h
+  | some t =>
+    rw [hh] at h
+    simp only [Option.any_some, Bool.and_eq_true, decide_eq_true_eq] at h
+    exact ⟨t, rfl, h.1, h.2⟩
+
+open Goyang.Lemmas.IncludeAugK Goyang.Lemmas.IncludeAugView Goyang.Lemmas.IncludeAugCompose Goyang.Lemmas.IncludeAugOrder in
+theorem tu_ok : ∃ tu, (loopU R R' {} plug).forest.tree? 2 = some tu ∧ IOShape tu ∧ NoRpc tu := by
+  unfold loopU
+  rw [augmentLoop_eqK]
+  have h : ((augmentLoopK R' (loopFuel R' {} plug) ((augOrder R).map (·.seq)).toArray (pstate0 R' {} plug)).2.forest.tree? 2).any
+      (fun t => decide (IOShape t) && decide (NoRpc t)) = true := by
+    decide +kernel
+  cases hh : (augmentLoopK R' (loopFuel R' {} plug) ((augOrder R).map (·.seq)).toArray (pstate0 R' {} plug)).2.forest.tree? 2 with
+  | none => rw [hh] at h; cases h
+  | some t =>
+    rw [hh] at h
+    simp only [Option.any_some, Bool.and_eq_true, decide_eq_true_eq] at h
+    exact ⟨t, rfl, h.1, h.2⟩
+
+/-- All hypotheses of `include_dump_in_unsplit_order` hold of `Ex4` (module `t`, number 2), and its conclusion. -/
+theorem dump_in_unsplit_order :
+    dumpOf (processAll R' {} plug) o =
+      dumpOf { errors := [], forest := Lemmas.AugmentReport.fixAll (Lemmas.IncludeAugCompose.loopU R R' {} plug).forest,
+               reg := R' } o := by
+  obtain ⟨ts, hts, hss, hrs⟩ := ts_ok
+  obtain ⟨tu, htu, hsu, hru⟩ := tu_ok
+  have hdev : ∀ x ∈ R'.mods, x.stmt.all "deviation" = [] := by decide +kernel
+  exact include_dump_in_unsplit_order sp R R' {} plug plug isSplit (by decide +kernel) (by decide +kernel) argsPlain stage1 conv0
+    hdev noLeftover' split_clean o hts htu hss hsu (Lemmas.IncludeAugView.sameIO_of_noRpc hrs hss hru hsu)
+end Ex4E
 
 end Goyang.Props.C13Include
